@@ -101,7 +101,36 @@ def run_modules(case):
         if c is not None:
             c.cleanup()
 
-case = (['neg', ['bin', '-', ['bin', '-', ['call', 'MIN', [['var', 'gamma'], ['num', 3.0]]], ['bin', '*', ['var', 'alpha'], ['var', 'beta']]], ['bin', '*', ['bin', '/', ['num', 7.0], ['var', 'beta']], ['bin', '*', ['num', 3.0], ['var', 'delta']]]]], ['(-((MIN(gamma_level,  3)  -  ((alpha_rate)  *  beta))  -  7  /  (beta)  *  (3  *  delta)))', '-(Min(Gamma_Level,3.0)-((Alpha_Rate)*beta)-(7.0)/beta*(3.0*(DELTA)))', '-(MIN(Gamma_Level, 3.0) - Alpha_Rate * beta - 7.0 / beta * (3.0 * DELTA))'], 0, 1)
+def run_names(_case=None):
+    """variables whose names differ only in characters that are not identifier characters stay DIFFERENT variables"""
+    variables = [dict(kind="aux", name="cost", eqn="3"), dict(kind="aux", name="Cost $", eqn="11"),
+                 dict(kind="aux", name="share", eqn="0.25"), dict(kind="aux", name="Share %", eqn="25"),
+                 dict(kind="aux", name="Probe 0", eqn="cost"), dict(kind="aux", name="Probe 1", eqn="cost_$"),
+                 dict(kind="aux", name="Probe 2", eqn="share"), dict(kind="aux", name="Probe 3", eqn="Share_%"),
+                 dict(kind="aux", name="Probe 4", eqn="cost_$ - cost + share_% / share")]
+    want = [3.0, 11.0, 0.25, 25.0, 108.0]
+    try:
+        c = Compiled(xmile("m", 0, 2, 1, variables))
+    except BaseException:
+        return None
+    try:
+        try:
+            sim = c.model()
+        except BaseException:
+            return None
+        for i, w in enumerate(want):
+            try:
+                got = float(sim.equation("probe%d" % i, 1.0))
+            except BaseException:
+                continue
+            if abs(got - w) > 1e-9:
+                return ("document with the variables 'cost' = 3, 'Cost $' = 11, 'share' = 0.25, 'Share %%' = 25: the probe %r evaluates to %r, the XMILE value is %r"
+                        % (variables[4 + i]["eqn"], got, w))
+        return None
+    finally:
+        c.cleanup()
+
+case = (['bin', '*', ['num', -0.5], ['var', 'alpha']], ['- .5 * Alpha_Rate'], 0, 1)
 bad = run(case)
 print("FAIL: " + bad if bad else "PASS")
 sys.stdout.flush()
